@@ -59,6 +59,11 @@ def _last_element(v):
     return v
 
 
+def _partial_buffer(sp) -> bool:
+    """Row bookkeeping of a buffer some rows of which were never written (instance runs): nothing can be said about its rows."""
+    return isinstance(sp, tuple) and bool(sp) and sp[0] == "buf"
+
+
 def order_src(order):
     return tuple(order[0]) if order is not None else ()
 
@@ -124,6 +129,18 @@ class PipeOps(FullOps):
             W = nv.poly - hv.poly
             if W.const_value() is not None or any(str(x).startswith(("psum[", "i#")) for x in W.symbols()):
                 continue
+            src_ = info.get("src")
+            idx_ = src_.elem.poly if isinstance(src_, ListV) and isinstance(src_.elem, TV) and src_.elem.note == "range-index" and src_.elem.poly is not None else None
+            ln_ = tv_of(src_.length) if isinstance(src_, ListV) and src_.length is not None else None
+            if order[0] and order[0][0] == "range" and idx_ is not None and ln_ is not None and ln_.poly is not None:
+                # a running offset in a loop over range(n) that grows by the same W every time: c + i·W at the head of iteration i, c + n·W after the loop
+                new = TV(kind="pyint", poly=hv.poly + idx_ * W, origin=hv.origin | nv.origin | frozenset(["loop-index"]))
+                reg[var] = ("arith:" + repr(hv.poly + ln_.poly * W), W)
+                self.__dict__.setdefault("_arith_total", {})[(lid, var)] = hv.poly + ln_.poly * W
+                head.vars[var] = new
+                nxt.vars[var] = new
+                changed = True
+                continue
             key = f"{W!r}|{order!r}"
             sym = f"psum[{key}]"
             self.psums[sym] = W
@@ -140,7 +157,10 @@ class PipeOps(FullOps):
             e_ = env
             while e_ is not None:
                 if var in e_.vars and isinstance(e_.vars[var], TV):
-                    e_.vars[var] = e_.vars[var].but(poly=Poly.sym("total" + sym[4:]), note="prefix-sum-total")
+                    if sym.startswith("arith:"):
+                        e_.vars[var] = e_.vars[var].but(poly=self.__dict__.get("_arith_total", {}).pop((lid, var), None), note="")
+                    else:
+                        e_.vars[var] = e_.vars[var].but(poly=Poly.sym("total" + sym[4:]), note="prefix-sum-total")
                     break
                 e_ = e_.parent
         # the loop variable outlives the loop holding the LAST element only: what is done with it afterwards concerns one
@@ -432,6 +452,10 @@ class PipeOps(FullOps):
         """Row intervals of the full stack carried by `t`, in order (instance runs only); None when not known."""
         if self.inst is None or not isinstance(t, TV):
             return None
+        if _partial_buffer(t.rowspan):
+            # a buffer some rows of which were not written is being read (sliced, reshaped, handed on): those rows are uninitialised memory
+            self.interp.event("unwritten_rows", None, missing=[i for i, c in enumerate(t.rowspan[1]) if c is None])
+            return None
         if t.rowspan == "?":
             return None
         if t.rowspan is not None:
@@ -464,7 +488,7 @@ class PipeOps(FullOps):
             t = tv_of(v)
             if t is None or t.rowspan is None:
                 continue
-            if t.rowspan == "?" or (sp is not None and sp != t.rowspan):
+            if t.rowspan == "?" or _partial_buffer(t.rowspan) or (sp is not None and sp != t.rowspan):
                 return "?"
             sp = t.rowspan
         return sp
@@ -630,6 +654,34 @@ class PipeOps(FullOps):
                 self.pev("diag", st, layout=[repr((0,) + tuple(blk[3][1:]))] if same else [], block=True, rows_match=bool(same))
                 if same:
                     return tv.but(layout=((0, blk[3][1], blk[3][2]),), origin=tv.origin | blk[4], alias=False, note="diag-block")
+            if not aug and idx and idx[0] == "slice" and tv.note in ("new_empty", "empty", "zeros", "new_zeros", "rowbuf") and isinstance(vt, TV) and is_opaque(vt) \
+                    and vt.axes and vt.axes[0] in ("R", "K") and len(vt.axes) >= 2:
+                # buf = x.new_empty([m, n]); buf[lo:hi] = block of rows — the buffer is what vstack of the blocks, laid at their positions, would be:
+                # its columns are laid out like the blocks' columns; which rows of the stack of cotangents end up where is followed in the instance runs
+                self.pev("pack", st, fn="vstack", dim=0, order="None", elem=repr(vt), in_loop=bool(self.loop_orders), scatter=True)
+                if tv.dtype != vt.dtype and tv.dtype not in ("Mixed",) and vt.dtype not in ("Mixed",):
+                    self.ev("store_cast", st, buffer_dtype=tv.dtype, value_dtype=vt.dtype, buffer_origin=sorted(tv.origin), buffer_note=tv.note)
+                cols = tuple(l for l in vt.layout if l[0] >= 1)
+                keep_cols = tuple(l for l in tv.layout if l[0] >= 1)
+                span = tv.rowspan
+                if self.inst is not None:
+                    m_ = self.inst["m"]
+                    cells = list(span[1]) if isinstance(span, tuple) and span and span[0] == "buf" else [None] * m_
+                    lo_c = 0 if (isinstance(idx[1], Const) and idx[1].v is None) or idx[1] is None else self.const_int(idx[1])
+                    rows_v = self.rows_of(vt)
+                    if lo_c is None or rows_v is None or tv.note != "rowbuf" and span is not None and not (isinstance(span, tuple) and span and span[0] == "buf"):
+                        span = "?"
+                    else:
+                        rr = self.span_rows(rows_v)
+                        hi_c = None if (isinstance(idx[2], Const) and idx[2].v is None) or idx[2] is None else self.const_int(idx[2])
+                        if lo_c < 0 or lo_c + len(rr) > m_ or (hi_c is not None and hi_c - lo_c != len(rr)):
+                            span = "?"
+                        else:
+                            cells[lo_c:lo_c + len(rr)] = rr
+                            span = ("buf", tuple(cells))
+                            if all(c is not None for c in cells):
+                                span = tuple((r, r + 1) for r in cells) if cells != sorted(set(cells)) else self.span_norm(cells)
+                return tv.but(note="rowbuf", layout=((0, None, "vstack"),) + (cols if (not keep_cols or keep_cols == cols) else ()), origin=tv.origin | vt.origin, alias=False, rowspan=span)
             enum_ = next((l[1] for l in (it.layout if isinstance(it, TV) else ()) if l[0] == "enum"), None)
             if not aug and tv.note in ("zeros", "empty") and tv.axes and tv.axes[0] == "R" and enum_ is not None and isinstance(vt, TV):
                 # buf = zeros((n,) + shape); for i, x in enumerate(xs): buf[i] = f(x)  —  row i of buf is f(xs[i]): torch.stack over xs, rows never written staying zero
@@ -1057,7 +1109,7 @@ class PipeOps(FullOps):
             t = tv_of(v)
             if t is None:
                 continue
-            if t.rowspan == "?":
+            if t.rowspan == "?" or _partial_buffer(t.rowspan):
                 return "?"
             sps.append(t.rowspan if t.rowspan is not None else (self.rows_of(t)))
         sps = [x for x in sps if x is not None]
